@@ -185,6 +185,7 @@ def _from_app_setup(ev):
 FA_DEFS = {
     "code_text()": "ag.status[:ag.status.find(' ')]",
     "unique_at(i)": "forall(j, 0, len(hl), implies(j != i, lower(hl[j][0]) != lower(hl[i][0])))",
+    "unclean(s)": "has(s, '\\n') or has(s, '\\r') or has(s, '\\0')",
 }
 
 FROM_APP = Contract(
@@ -203,7 +204,8 @@ FROM_APP = Contract(
     on_yield=relay_yield, on_yield_from=relay_yield_from, yield_mods=("outb", "it"),
     ghost_modifies=["outb", "it", "ag"], frame_check=False,
     inline_callees=("wsgi.ensure_next",),
-    raises={},
+    # the response's header mapping refuses CR / LF / NUL (PEP 3333 forbids them in an application's headers anyway)
+    raises={"ValueError": "exists(i, 0, len(hl), unclean(hl[i][0]) or unclean(hl[i][1]))"},
     ensures={
         "app_ran_once": "ag.n_app == 1",
         # the response object is built only after the application has called start_response (a generator-function
@@ -405,7 +407,8 @@ W_WRAPPER = Contract(
     stubs={"NextRequest": next_request_ctor},
     stub_methods={(WM + ":NextResponse", "__call__"): next_response_call},
     on_yield=lambda ev, v, node: None, on_yield_from=lambda ev, v, node: None, yield_mods=(),
-    ghost_modifies=["outb", "it", "ag", "em", "em_headers"], frame_check=False, raises={},
+    ghost_modifies=["outb", "it", "ag", "em", "em_headers"], frame_check=False,
+    raises={"ValueError": FROM_APP.raises["ValueError"]},     # an inner application that emits CR / LF / NUL in a header
     ensures={
         "inner_app_ran_once": "ag.n_app == 1 and ag.n_start == 1 and em.n_handler == 1",
         "response_called_once": "em.n == 1",
